@@ -307,7 +307,7 @@ def gen_insess(tier, rng):
         yield Case(sess_line(A_AAC, V_NONE, [(0, rtp(97, 5, 77, ssrc, fr[0])), (0, rtp(97, 6, 77, ssrc, cont + b"\x99", pad=1 if cont == b"" else 0))]), cls="sess-aac-frag")
     # many fragmented units (the Size counter drifts by one per unit)
     pk = []
-    for k in range(40 if tier == "quick" else 1100):
+    for k in range(1100):
         pk.append((0, rtp(97, 2 * k, k, ssrc, au_fragment(4, b"\x01\x02"))))
         pk.append((0, rtp(97, 2 * k + 1, k, ssrc, au_fragment(4, b"\x03\x04"))))
     yield Case(sess_line(A_AAC, V_NONE, pk), cls="sess-aac-frag")
